@@ -4,6 +4,12 @@ from amoco.arch.core import Formatter
 from amoco.ui.render import Token, TokenListJoin, highlight
 
 
+def same(o, r):
+    # o is register r (instructions restored by pickle hold copies of the
+    # env registers, so identity can't be used)
+    return o is not None and o._is_reg and o.ref == r.ref
+
+
 def mn(m, pad=8):
     return [(Token.Mnemonic, m.lower().ljust(pad))]
 
@@ -42,7 +48,7 @@ def ops(i):
             a = o.a.base
             disp = o.a.disp
             if disp == 0 and a._is_reg:
-                if i.misc["autoinc"] is a:
+                if same(i.misc["autoinc"], a):
                     s.append((Token.Memory, "@%s+" % a))
                 else:
                     s.append((Token.Memory, "@%s" % a))
@@ -82,20 +88,20 @@ def MSP430_synthetic(null, i, toks=False):
         s[0] = mn("tst")[0]
         del s[1:3]
     elif i.mnemonic == "MOV":
-        if i.operands[1] is pc:
+        if same(i.operands[1], pc):
             s[0] = mn("br")[0]
             del s[2:4]
         elif i.operands[0] == 0:
             s[0] = mn("clr")[0]
             del s[1:3]
-        elif i.misc["autoinc"] is sp:
-            if i.operands[1] is pc:
+        elif same(i.misc["autoinc"], sp):
+            if same(i.operands[1], pc):
                 s = mn("ret")
             else:
                 s[0] = mn("pop")[0]
                 del s[1:3]
     elif i.mnemonic == "BIC":
-        if i.operands[1] is sr:
+        if same(i.operands[1], sr):
             m = None
             if i.operands[0] == 1:
                 m = "clrc"
@@ -108,7 +114,7 @@ def MSP430_synthetic(null, i, toks=False):
             if m:
                 s = mn(m)
     elif i.mnemonic == "BIS":
-        if i.operands[1] is sr:
+        if same(i.operands[1], sr):
             m = None
             if i.operands[0] == 1:
                 m = "setc"
